@@ -169,6 +169,10 @@ func (s *Sim) persistEntries(n *Node) {
 	if !s.writeEntries(n, rd.Entries) {
 		return
 	}
+	if rd.MustSync {
+		// storage is prefix-durable (a WAL): an fsync covers earlier writes
+		n.Disk.syncAll()
+	}
 	if hsOf(rd) == nil {
 		n.Phase = PhasePersisted
 	} else {
@@ -238,6 +242,10 @@ func (s *Sim) writeAtomic(n *Node, snap *pb.Snapshot, ents []*pb.Entry, hs *pb.H
 	}
 	if hs != nil {
 		s.writeHS(n, hs, synced)
+	}
+	if synced {
+		// storage is prefix-durable (a WAL): an fsync covers earlier writes
+		n.Disk.syncAll()
 	}
 	return true
 }
